@@ -1,3 +1,4 @@
+import BasicModel.Gen.Limits
 import BasicModel.Lemmas.Link
 import BasicModel.Lemmas.StackBound
 import BasicModel.Lemmas.Control
@@ -245,6 +246,10 @@ example : ((doReturn.run).run (exRt #[.int 9])).1 = .error (Error.mk' Code.retur
 example : (({ ops := Array.replicate 65535 .end } : Link).push .end).2 = .error opsOverflow := by
   simp [Link.push, Gen.stackMaxLen]
 example : (({ ops := #[.end] } : Link).push .end).2 = .ok () := by decide
+
+/-- pool limits re-extracted from stack.rs and var.rs; `Gen/Limits.lean` is regenerated from /repo/src on every run, so editing one of these
+    constants in the Rust source breaks this obligation -/
+theorem generated_limits_documented : Gen.stackMaxLen = 65535 ∧ Gen.stackFullMargin = 32 ∧ Gen.varMaxLen = 65535 := by decide
 
 end Thm.C18
 end Basic
